@@ -41,5 +41,6 @@ def floatOps : FOps Float where
     if y.isInf && !x.isInf then none else some y
   roundEven := floatRoundEven
   floor := fun x => if x.isNaN || x.isInf then none else some (floatToIntExact x.floor)
+  isFinite := fun x => !(x.isNaN || x.isInf)
 
 end Qbee.Arith
